@@ -512,6 +512,55 @@ def stochasticBinaryCall (o : SBinObj) (phase : Bool) (xs ps rs : List Rat) : Op
     | _ => none
   else binaryCall o.base false xs [] [] []
 
+/-! ## layer objects that hold a quantizer, used several times (qkeras/qlayers.py)
+
+`QActivation.call(inputs)` is `return self.quantizer(inputs)`; `QDense` / `QConv*` end their `call`
+with `output = self.activation(output)` and quantize their kernel with
+`self.kernel_quantizer_internal(self.kernel)`; `tf.keras.layers.Activation(q)` calls `q(inputs)`.
+In all of them the quantizer reads `K.learning_phase()` AT THE TIME OF THE CALL: the layer object
+keeps no state between calls.  The alternative — a `call` wrapped in a per-input-signature trace
+(`@tf.function`, Keras' cached `predict_function`) — resolves `smart_cond(K.learning_phase(), ..)`
+once, when the signature is traced (in eager mode the phase is a Python int), and replays that
+branch, and the random ops recorded in it, on every later call with the same signature.
+`layerStep` models both with one flag. -/
+
+/-- one call of a layer object: the learning phase at call time, an id of the input signature
+    (shape / dtype), the input, and the draws `tf.random.uniform` returns during this call -/
+structure LCall (α β : Type) where
+  phase : Bool
+  sig : Nat
+  x : α
+  u : β
+
+/-- trace cache: input signature ↦ (learning phase at trace time, draws recorded at trace time) -/
+abbrev LCache (β : Type) := List (Nat × Bool × β)
+
+/-- one call of the layer around the quantizer `q phase x u`; `traced = false`: eager `call`
+    (the code as written); `traced = true`: `call` behind a per-signature trace cache -/
+def layerStep {α β γ : Type} (traced : Bool) (q : Bool → α → β → γ) (cache : LCache β)
+    (c : LCall α β) : γ × LCache β :=
+  if traced then
+    match cache.lookup c.sig with
+    | some (ph, u) => (q ph c.x u, cache)
+    | none => (q c.phase c.x c.u, (c.sig, c.phase, c.u) :: cache)
+  else (q c.phase c.x c.u, cache)
+
+/-- the outputs of a whole history of calls on ONE layer object -/
+def layerRun {α β γ : Type} (traced : Bool) (q : Bool → α → β → γ) :
+    LCache β → List (LCall α β) → List γ
+  | _, [] => []
+  | cache, c :: rest =>
+    let r := layerStep traced q cache c
+    r.1 :: layerRun traced q r.2 rest
+
+/-- `QActivation.call`, the `activation=` / `kernel_quantizer=` slots of the Q layers, keras
+    `Activation(q)`, `Model.__call__`: eager -/
+def qactivationTraced : Bool := false
+
+/-- `Model.predict` / `predict_on_batch` of tf_keras: `make_predict_function` builds ONE
+    `tf.function` per model object and caches it (`self.predict_function`) -/
+def kerasPredictTraced : Bool := true
+
 /-! ## the property's reference notions (used by the clause oracle and by Props/C08.lean)
 
 A fixed-point class is a lattice `post·(k + off)`, `k` an integer, clipped to level bounds
